@@ -72,20 +72,23 @@ CHECKS["C05"] = dict(
     technique="explicit-state BFS over request/clock histories on the real CircuitBreaker (frozen clock, exact keys) with an observational monitor; DFS over interleavings of overlapping requests and a clock thread",
     text="All histories up to the depth bound of Req(code,latency)/Advance(d) for the product of fallback, recovery, check-period and condition values: from the observed trip instant T every request arriving in [T,T+fallback) is answered by the fallback without invoking the handler; every request in standby reaches the handler; observed state edges are only the legal ones. Concurrent part: overlapping in-flight requests and clock advances around a trip.",
     note="A2 (one instant per call; handler latency advances the clock); state observed through String()",
-    parts=[dict(bin="vh", part="cb", shards=16, budget=dict(quick=100, thorough=1500))])
+    parts=[dict(bin="vh", part="cb", shards=16, budget=dict(quick=100, thorough=1500)),
+           dict(bin="vsched", part="cbs", shards=16, budget=dict(quick=100, thorough=1500))])
 CHECKS["C12"] = dict(
     level="model_checking", engine="xstate+sched", design_ref="DESIGN.md §5 C12",
     technique="explicit-state BFS from prepared just-tripped states on the real CircuitBreaker; exact integer-arithmetic ramp reference",
     text="All histories up to the depth bound of requests (200/failing) and advances {recovery/8,/4,/2, recovery+eps, fallback} starting at the end of the fallback period: after every pass passed/(passed+refused) <= 0.5*elapsed/recovery, a refusal only if passing would reach the ramp (ties accepted), first request after the recovery period is passed and leaves standby or a new trip.",
     note="A2; recovery durations {2s,10s}",
-    parts=[dict(bin="vh", part="cb", shards=16, budget=dict(quick=100, thorough=1500))])
+    parts=[dict(bin="vh", part="cb", shards=16, budget=dict(quick=100, thorough=1500)),
+           dict(bin="vsched", part="cbs", shards=16, budget=dict(quick=100, thorough=1500))])
 
 CHECKS["C18"] = dict(
     level="model_checking", engine="enum+sched", design_ref="DESIGN.md §5 C18",
     technique="bounded-exhaustive program x history enumeration on the real CircuitBreaker (all histories up to a depth from fresh + De Bruijn covering runs) against a three-valued reference evaluator",
     text="Every generated condition expression (all atoms over the three metric functions and six comparisons, compounds with one and two connectives, with and without parentheses) x check period is run on the real breaker over every history up to the depth bound and over a sequence containing every operation window; each evaluation's trip decision must match the reference under the tightest and loosest window reading; OnTripped/OnStandby counts equal the observed transitions.",
     note="goroutines spawned by the breaker are queued and run deterministically (overlay); windows read as 9..10s / 50s..since-trip; quantile rank +-1",
-    parts=[dict(bin="vsched", part="c18", shards=16, budget=dict(quick=100, thorough=1500))])
+    parts=[dict(bin="vsched", part="c18", shards=16, budget=dict(quick=100, thorough=1500)),
+           dict(bin="vsched", part="cbs", shards=16, budget=dict(quick=100, thorough=1500))])
 
 CHECKS["C09"] = dict(
     level="model_checking", engine="sched", design_ref="DESIGN.md §5 C09",
